@@ -284,6 +284,7 @@ func runC13(c *Ctx) {
 	if ct := c.fn(relNetlist, "List", "Contains"); ct != nil && to6 != nil {
 		// every Compare / Contains on list elements uses to6(addr)
 		good := true
+		zoneOK := true
 		n := 0
 		eachInstr(ct, func(in ssa.Instruction) {
 			ci, ok := in.(*ssa.Call)
@@ -296,11 +297,24 @@ func runC13(c *Ctx) {
 			}
 			n++
 			a := ci.Call.Args[1]
+			// D19: … and has its zone dropped: to6(addr).WithZone("") — the rule side has no zones (netip.PrefixFrom drops
+			// them) and netip.Prefix.Contains never contains a zoned address
+			if wz, ok := a.(*ssa.Call); ok && callName(wz) == "(net/netip.Addr).WithZone" {
+				if z, isC := wz.Call.Args[1].(*ssa.Const); isC && z.Value != nil && z.Value.ExactString() == `""` {
+					a = wz.Call.Args[0]
+				} else {
+					zoneOK = false
+				}
+			} else {
+				zoneOK = false
+			}
 			if cl, ok := a.(*ssa.Call); !ok || staticCallee(cl) != to6 || cl.Call.Args[0] != ssa.Value(ct.Params[1]) {
 				good = false
 			}
 		})
 		c.check(good && n >= 2, "to6@Contains", ct.Pos(), "the queried address goes through to6 before search and containment test", "the queried address is not mapped through to6: IPv4 addresses never match the IPv6-form prefixes")
+		c.check(zoneOK && n >= 2, "zone-dropped@Contains", ct.Pos(), "the queried address is looked up without its zone",
+			"the queried address keeps its zone: a link-local client (fe80::1%eth0 — what the servers hand to client_ip) is contained in no prefix, not even ::/0 or its own address, although the rule side stores the same address without zone")
 	}
 
 	if t6 := c.fn(relNetlist, "", "to6"); t6 != nil {
